@@ -532,6 +532,8 @@ def _outs_digest(records):
 
 
 def _cls(out, ref):
+    if out['k'] == 'deadlock':
+        return 'deadlock'
     if out['k'] == 'exc':
         return 'exc:' + out['t']
     if ref is not None and ref['k'] == 'exc':
